@@ -34,6 +34,11 @@ CLAIMED = {
             "extended CONNECT) x recv segmentation on both workers, with own frame builder/parser/inflater; the size-limit "
             "boundary {limit-1, limit, limit+1} is enumerated for both kinds, carriers and workers. One dependency defect is a known finding (F14).",
             "own RFC 6455/7692 client code trusted; only valid UTF-8 is sent"),
+    "C11": ("5/C11", "Complete enumeration of a small handshake matrix (upgrade/connection/version/key/http-version x accept/close, both "
+            "carriers and workers) plus seeded search over larger header combinations, application decisions (valid and invalid "
+            "accepts, close, denial response, crash) and closing orders, judged against a decision table with an independently "
+            "computed RFC 6455 accept token.",
+            "requests that are not upgrade attempts at all (no Connection: upgrade token, other Upgrade value, non-GET) are ordinary HTTP and not judged here"),
 }
 
 NOT_APPLICABLE = {
